@@ -236,6 +236,15 @@ fn run(case: &Case, cx: &mut Cx) -> CaseResult {
                     }
                 }
             }
+            // In two cases of five a second symlink sits beside the new one, named like it plus
+            // a suffix that starts with a byte sorting before '/' (`cur` and `cur.bak`, `cur-1`):
+            // in byte order it falls between the link and what used to be below the link.
+            if *k % 5 < 2 {
+                let sib = format!("{d}{}", [".bak", "-1", " x", "!"][*di as usize % 4]);
+                if !t1.0.contains_key(&sib) && tree::base_name(&sib).len() <= 255 {
+                    t1.0.insert(sib, Node { kind: Kind::Link { target: if *di % 2 == 0 { target.clone() } else { "nowhere".to_string() } }, meta });
+                }
+            }
             t1.0.insert(d.clone(), Node { kind: Kind::Link { target }, meta });
             tree::rematerialise(&t0, &t1, &src);
             let ctl = Ctl::new(&arch, Plan::FreezeAtMutating { k: *k as usize + 3, torn: false });
@@ -346,6 +355,21 @@ fn run(case: &Case, cx: &mut Cx) -> CaseResult {
                 format!("C16/second-restore-over-first/outside-modified/{field}"),
                 format!("restoring version 0 with overwrite over a restore of {sel:?} changed something outside the destination: {msg} ({})", r2.describe()),
             ));
+        }
+        // ... and once more, asking only for the directory that the destination holds as a
+        // symlink (the link survives the restore above: entries on it are refused)
+        if let Some(d) = &replaced_dir {
+            let r3 = ops::restore(&arch, &None, &dest, &Sel::Band(0), Some(d.as_str()), &case.exclude, true);
+            if let Some(p) = &r3.panic {
+                fail!(format!("C16/restore-panic@{}", ops::panic_site(p)), "{p}");
+            }
+            let after3 = outside(&s, "/r/dest");
+            if let Some((field, msg)) = tree::first_diff(&before2, &after3, CmpOpts::untouched()) {
+                return Err(Failure::new(
+                    format!("C16/second-restore-of-the-subtree-over-first/outside-modified/{field}"),
+                    format!("restoring only {d} of version 0 with overwrite over a restore of {sel:?} changed something outside the destination: {msg} ({})", r3.describe()),
+                ));
+            }
         }
     }
     cx.label_if(second, "second-restore-over-first");
